@@ -129,6 +129,7 @@ fn spec(prop: &str, alpha: Alpha, depth: usize, cfgs: Vec<Cfg>, oracles: Oracles
         max_reopens: 0,
         max_refused: 0,
         refused_level: 0,
+        roots_skip_inapplicable: false,
         oracles,
         wall_cap: Duration::from_secs(cap_s * cap_mult()),
         grid_probes: false,
@@ -147,6 +148,59 @@ fn deep_roots() -> Vec<Vec<&'static str>> {
         vec!["append", "append", "purge_first", "append"],
         vec!["append", "vote_up", "append_t+1", "commit_last", "user_data", "append"],
     ]
+}
+
+/// Periodic histories: every pattern of up to `max_pat` core symbols, repeated
+/// `reps` times (symbols that are not applicable at a state are skipped). They
+/// reach what a depth-bounded search cannot: many rotations, many purges, long
+/// logs, counters that have to grow — still an exhaustively enumerated family.
+fn periodic_roots(max_pat: usize, reps: &[usize]) -> Vec<Vec<&'static str>> {
+    const CORE: [&str; 13] = [
+        "append", "append_t+1", "append_t+2", "truncate_last", "truncate_first+1", "truncate_purged+1", "purge_first", "purge_last", "purge_beyond", "vote_up",
+        "commit_last", "user_data", "flush",
+    ];
+    let mut pats: Vec<Vec<&'static str>> = vec![vec![]];
+    let mut all: Vec<Vec<&'static str>> = vec![];
+    for _ in 0..max_pat {
+        let mut next = vec![];
+        for p in &pats {
+            for s in CORE {
+                let mut q = p.clone();
+                q.push(s);
+                next.push(q);
+            }
+        }
+        all.extend(next.iter().cloned());
+        pats = next;
+    }
+    // a pattern without an append never builds a log: keep those that append,
+    // and drop repetitions of a shorter pattern (aa = a repeated)
+    all.retain(|p| p.iter().any(|s| s.starts_with("append")));
+    all.retain(|p| !(p.len() == 2 && p[0] == p[1]) && !(p.len() == 3 && p[0] == p[1] && p[1] == p[2]));
+    let mut out = vec![];
+    for p in &all {
+        for r in reps {
+            let mut h = vec![];
+            for _ in 0..*r {
+                h.extend(p.iter().copied());
+            }
+            out.push(h);
+        }
+    }
+    out
+}
+
+fn periodic_phase(prop: &str, cfgs: Vec<Cfg>, o: Oracles, thorough: bool) -> Phase {
+    let mut s = spec(prop, Alpha::Core, 1, cfgs, o, if thorough { 1200 } else { 35 });
+    s.roots = if thorough { 
+        let mut v = periodic_roots(2, &[3, 6, 12]);
+        v.extend(periodic_roots(3, &[4]).into_iter().filter(|h| h.len() == 12));
+        v
+    } else {
+        periodic_roots(2, &[4, 8])
+    };
+    s.roots_skip_inapplicable = true;
+    Phase { name: "periodic histories (every pattern of 1-2 core symbols repeated; thorough: also of 3) + one more operation", spec: s }
 }
 
 /// both chunk limits set; with the harness's record sizes sometimes the size
@@ -199,6 +253,7 @@ pub fn seq_phases(prop: &str, tier: &str) -> Vec<Phase> {
                             s
                         },
                     },
+                    periodic_phase(prop, vec![Cfg::records(2), Cfg::records(3)], o.clone(), thorough),
                 ]
             } else {
                 vec![
@@ -218,6 +273,7 @@ pub fn seq_phases(prop: &str, tier: &str) -> Vec<Phase> {
                             s
                         },
                     },
+                    periodic_phase(prop, vec![Cfg::records(2), Cfg::records(3)], o.clone(), thorough),
                 ]
             }
         }
@@ -241,9 +297,13 @@ pub fn seq_phases(prop: &str, tier: &str) -> Vec<Phase> {
             let mut t = spec(prop, Alpha::Tiny, if thorough { 7 } else { 5 }, cfgs, o, if thorough { 1500 } else { 30 });
             t.reopen_cfgs = reopen_cfgs[..3].to_vec();
             t.max_reopens = if thorough { 3 } else { 2 };
+            let mut p = periodic_phase(prop, vec![Cfg::records(2), Cfg::records(3)], Oracles { semantics: true, restart_epilogue: true, ..Default::default() }, thorough);
+            p.spec.reopen_cfgs = reopen_cfgs[..3].to_vec();
+            p.spec.max_reopens = 1;
             vec![
                 Phase { name: "core alphabet + restarts under changed limits", spec: s },
                 Phase { name: "tiny alphabet + restarts, deeper", spec: t },
+                p,
             ]
         }
         "C07" => {
@@ -262,6 +322,7 @@ pub fn seq_phases(prop: &str, tier: &str) -> Vec<Phase> {
                 name: "legal alphabet (incl. batches and 40 000-byte entries), eager worker, small caches",
                 spec: spec(prop, Alpha::Legal, if thorough { 4 } else { 3 }, cfgs.clone(), o.clone(), if thorough { 1200 } else { 35 }),
             }];
+            v.push(periodic_phase(prop, cfgs[..2].to_vec(), o.clone(), thorough));
             if thorough {
                 v.push(Phase {
                     name: "core alphabet, deeper, small caches",
@@ -326,6 +387,7 @@ pub fn seq_phases(prop: &str, tier: &str) -> Vec<Phase> {
                             s
                         },
                     },
+                    periodic_phase(prop, vec![Cfg::records(2), Cfg::records(3), Cfg::size(100)], o.clone(), thorough),
                 ]
             } else {
                 vec![
@@ -342,6 +404,7 @@ pub fn seq_phases(prop: &str, tier: &str) -> Vec<Phase> {
                             s
                         },
                     },
+                    periodic_phase(prop, vec![Cfg::records(2), Cfg::records(3), Cfg::size(100)], o.clone(), thorough),
                 ]
             }
         }
@@ -378,6 +441,7 @@ pub fn seq_phases(prop: &str, tier: &str) -> Vec<Phase> {
                 Phase { name: "from start states with re-appended entries and an advanced boundary", spec: r },
                 Phase { name: "the same start states, evictable entries drained after every operation", spec: d },
                 Phase { name: "core alphabet, drained after every operation", spec: d0 },
+                periodic_phase(prop, vec![Cfg::records(3).with_cache(Some(0), None), Cfg::records(2).with_cache(Some(2), Some(5))], Oracles { cache: true, drain_each: true, ..Default::default() }, thorough),
             ]
         }
         "C16" => {
